@@ -4,6 +4,7 @@ import random
 from harness.props import llp_common as L
 
 ID = "C01"
+DISABLED = "work in progress: the model and its correspondence check exist, parse_sound is not proved yet (DESIGN.md section 8, C01)"
 COQ_DIR = "C01"
 EXTRA_COQ_DIRS = ["LLP"]
 RUN_MOD = L.RUN_MOD
